@@ -14,6 +14,7 @@ inductive Cred where
   | selfSigned
   | otherCA
   | expired
+  | expiredRecently -- chains to the configured CA but its validity ended a minute or two ago (no tolerance: expired is expired)
   | wrongUsage      -- chains to the CA but lacks the ExtKeyUsage for its role
   | borrowedChain   -- first certificate: self-signed, CA flag set, the peer's own key; followed by the PUBLIC certificate of
                     -- a legitimate peer (which the peer holds no key for). TLS proves possession of the FIRST certificate's key only
